@@ -54,8 +54,9 @@ def facts(inst):
     return " ".join(s + "." for s in inst)
 
 
-def _scope_core(src, inst, consts):
-    """greedy subset-minimal set of instance atoms that still triggers an out-of-scope diagnostic"""
+def _scope_core(src, inst, consts, candidates=()):
+    """out-of-scope cube around the instance: a greedy subset-minimal set of instance atoms that still triggers an
+    out-of-scope diagnostic, plus the atoms outside the instance whose addition alone repairs it"""
     core = list(inst)
 
     def bad(atoms):
@@ -66,7 +67,17 @@ def _scope_core(src, inst, consts):
         trial = [x for x in core if x != a]
         if bad(trial):
             core = trial
-    return core
+    repair = []
+    if core:
+        for a in candidates:
+            if a not in inst and len(repair) < 200 and not bad(core + [a]):
+                repair.append(a)
+    return (frozenset(core), frozenset(repair))
+
+
+def _instance_candidates(X, inputs):
+    ins = set((n, int(a)) for n, a in inputs)
+    return sorted(s for a, s in X.sym.items() if X.sig.get(a) in ins)
 
 
 def check_pair(src, dst, inputs, vis_preds, universe, consts=(), costs=True, one_to_one=False, show_terms=False,
@@ -138,7 +149,7 @@ def check_pair(src, dst, inputs, vis_preds, universe, consts=(), costs=True, one
     res["status"], res["reason"] = final[0], final[1]
     if len(final) > 2:
         res["counterexample"] = final[2]
-    res["blocked_out_of_scope_cores"] = [sorted(c) for c in blocked]
+    res["blocked_out_of_scope_cores"] = [{"core": sorted(c[0]), "unless": sorted(c[1])[:12]} for c in blocked]
     res["wall_s"] = round(time.time() - t0, 3)
     return res
 
@@ -196,8 +207,8 @@ def _decide(res, src, dst, dst_asts, A, B, inputs, V, vis_exact, vname, costs, o
                 # a difference on a non-output predicate is not a violation; fall back to the exact V
                 sc = replay.enumerate_models(text=src, instance=facts(inst) + " " + extra, vis_preds=set(), consts=consts, cap=1)
                 if sc.scope and not sc.error and rounds <= MAX_SCOPE_ROUNDS:
-                    core = set(_scope_core(src, inst, consts))
-                    if not core:
+                    core = _scope_core(src, inst, consts, _instance_candidates(X, inputs))
+                    if not core[0]:
                         return ("skip", "every instance is out of scope (diagnostic without any instance atom)")
                     blocked.append(core)
                     continue
@@ -222,8 +233,8 @@ def _decide(res, src, dst, dst_asts, A, B, inputs, V, vis_exact, vname, costs, o
                 if rounds > MAX_SCOPE_ROUNDS:
                     inconclusive = "too many out-of-scope cores"
                     break
-                core = set(_scope_core(src, inst, consts))
-                if not core:
+                core = _scope_core(src, inst, consts, _instance_candidates(X, inputs))
+                if not core[0]:
                     return ("skip", "every instance is out of scope (diagnostic without any instance atom)")
                 blocked.append(core)
                 continue
